@@ -157,6 +157,7 @@ class Repo(object):
         self.consulted = set()
         self.renamed = {}
         self.adopted = {}
+        self.inlined = {}
         self._alpha_normalise()
 
     def _alpha_normalise(self):
@@ -168,6 +169,16 @@ class Repo(object):
         ref = alpha.load_reference(refdir)
         hier_cur = equiv.class_hierarchy([m.tree for m in self.modules.values()])
         hier_ref = equiv.class_hierarchy(list(ref.values()))
+        from . import inline
+        for name, mod in self.modules.items():
+            if name in ref and not os.environ.get("VERIF_NO_INLINE"):
+                if ast.dump(mod.tree) == ast.dump(ref[name]):
+                    continue
+                done, removed = inline.inline_new_helpers(mod.tree, ref[name], hier_cur)
+                if done:
+                    self.inlined[name] = {"inlined": done, "dropped": removed}
+                    ast.fix_missing_locations(mod.tree)
+                    set_parents(mod.tree)
         for name, mod in self.modules.items():
             if name in ref and not os.environ.get("VERIF_NO_EQUIV"):
                 got = equiv.adopt_reference(mod.tree, ref[name], hier_cur, hier_ref)
@@ -520,6 +531,7 @@ def finish(chk, t0, seed, error=None, extra_cov=None, out=sys.stdout, write=True
         "source_digest": chk.repo.digest() if chk.repo else "",
         "locals_renamed_to_reference": {m: {q: d for q, d in v.items()} for m, v in chk.repo.renamed.items()
                                         if m in chk.repo.consulted} if chk.repo else {},
+        "helpers_inlined": {m: v for m, v in chk.repo.inlined.items() if m in chk.repo.consulted} if chk.repo else {},
         "units_proved_equivalent_to_reference": {m: v for m, v in chk.repo.adopted.items()
                                                  if m in chk.repo.consulted} if chk.repo else {},
         "known_findings_matched": [o.key for o in known_hit],
